@@ -2,6 +2,7 @@ import TaskModel.Vars.Model
 import TaskModel.Vars.Dotenv
 import TaskModel.Vars.Cli
 import TaskModel.Vars.Compile
+import TaskModel.Vars.EnvPipe
 import Driver.Util
 /-!
 `vars.resolve <rootDir> <dirAfter> <ntpl> part* <nbase> (name val)* { <ndefs> (name kind <nparts> part*)* }×6 <nq> name*`
@@ -82,7 +83,7 @@ def doResolve : P String := do
     match s with
     | .taskfileEnv => blocks[0]! | .taskfileVars => blocks[1]! | .includeVars => blocks[2]!
     | .includedTaskfileVars => blocks[3]! | .callVars => blocks[4]! | .taskVars => blocks[5]!
-  let st := getVariables ⟨oracle, base.reverse⟩ ⟨root, tpl, dirAfter⟩ base.reverse (layersOf defs) []
+  let st := getVariables ⟨oracle, base.reverse, false⟩ ⟨root, tpl, dirAfter⟩ base.reverse (layersOf defs) []
   pure (" ".intercalate (qs.map (fun q => showStr (get st.env q))))
 
 def doEnv : P String := do
@@ -152,7 +153,7 @@ def doCli : P String := do
   let defs : Site → List (Name × VarDef) := fun s =>
     match s with
     | .taskfileEnv => genv | .taskfileVars => gl | .taskVars => tv | _ => []
-  let st := getVariables ⟨oracle, base.reverse⟩ ⟨[], [], 3⟩ base.reverse (layersOf defs) []
+  let st := getVariables ⟨oracle, base.reverse, false⟩ ⟨[], [], 3⟩ base.reverse (layersOf defs) []
   pure (" ".intercalate (qs.map (fun q => showStr (get st.env q))))
 
 /-- `vars.compile <home> <rootDir> <entrypoint> <uwd> <taskName> <rawDir> <dirTpl: nparts part*> <taskfile> <alias>
@@ -181,9 +182,28 @@ def doCompile : P String := do
   let tc : TaskCtx := { rootDir := root, entrypoint := entry, userWorkingDir := uwd, taskName := tname, rawDir := rawDir,
                         dirTpl := tpl, taskfile := tfile, alias := alias }
   let cd : CallDesc := { tc := tc, genv := genv, files := files, level := level, callVars := cv, wildcards := wild, taskVars := tv, fp := fp }
-  let w : World := ⟨oracle, os.reverse⟩
+  let w : World := ⟨oracle, os.reverse, false⟩
   let r := compile w home cd []
   pure (" ".intercalate (qs.map (fun q => showStr (get r.vars q)) ++ ["dir=" ++ showStr r.dir]))
+
+/-- `vars.envpipe <prec> <rootDir> <dirTpl: nparts part*> <nos> (name val)* <genv block> <gvars block> <dotenv block> <tenv block> <tvars block> <nq> name*`
+→ per name `<{{.N}}>/<$N | none>`, then `dir=<compiled Dir>`: the environment clause over the real pipeline (`Vars.EnvPipe`) -/
+def doEnvPipe : P String := do
+  let prec ← bool
+  let root ← str; let tpl ← parts
+  let nb ← nat; let os ← many nb binding
+  let block : P (List (Name × VarDef)) := do let n ← nat; many n vdef
+  let genv ← block; let gvars ← block; let dotenv ← block; let tenv ← block; let tvars ← block
+  let nq ← nat; let qs ← many nq nat
+  let w : World := ⟨oracle, os.reverse, prec⟩
+  let defs : Site → List (Name × VarDef) := fun s =>
+    match s with
+    | .taskfileEnv => genv | .taskfileVars => gvars | .taskVars => tvars | _ => []
+  let st := getVariables w ⟨root, tpl, 3⟩ os.reverse (layersOf defs) []
+  let dir := joinDir root (render st.env tpl)
+  let ce := compiledEnv w st.env genv dotenv tenv dir st.cache
+  pure (" ".intercalate (qs.map (fun q => showStr (get st.env q) ++ "/" ++
+      (match commandSees w ce.1 q with | some v => showStr v | none => "none")) ++ ["dir=" ++ showStr dir]))
 
 def handle (op : String) (args : List String) : Option String :=
   let run (p : P String) := match p.run args with | some (r, []) => some r | _ => none
@@ -199,6 +219,7 @@ def handle (op : String) (args : List String) : Option String :=
   | "vars.run" => some (" ".intercalate args)
   | "vars.cli" => run doCli
   | "vars.compile" => run doCompile
+  | "vars.envpipe" => run doEnvPipe
   -- monitor of "special variables are available": `vars.climon <name> <value the rule demands>`
   | "vars.climon" => match args with | [_, want] => some want | _ => none
   -- monitor of "available unless overridden" for the POST layer: `vars.postmon <name> <value the rule demands>`
